@@ -33,3 +33,15 @@ Theorem C10_chain_invents_nothing : forall (B : Type) (m1 : list (@token pos)) (
   In t (chain m1 m2) -> exists t1, In t1 m1 /\ fst t = fst t1 /\ retarget m2 t1 = Some t.
 Proof. exact @chain_keys. Qed.
 Print Assumptions C10_chain_invents_nothing.
+
+(** Original maps may contain segments without a source; a rewrite token that resolves to one is dropped
+    (the composition is undefined there), and the two statements above carry over. *)
+Theorem C10_chain_with_sourceless_segments : forall (B : Type) (m1 : list (@token pos)) (m2 : list (@token (option B))) p,
+  lookup (chain_opt m1 m2) p = unwrap_tok (resolve2 (filter (resolves_src m2) m1) m2 p).
+Proof. exact @chain_opt_lookup. Qed.
+Print Assumptions C10_chain_with_sourceless_segments.
+
+Theorem C10_chain_with_sourceless_invents_nothing : forall (B : Type) (m1 : list (@token pos)) (m2 : list (@token (option B))) k b,
+  In (k, b) (chain_opt m1 m2) -> exists t1, In t1 m1 /\ k = fst t1 /\ retarget m2 t1 = Some (k, Some b).
+Proof. exact @chain_opt_keys. Qed.
+Print Assumptions C10_chain_with_sourceless_invents_nothing.
